@@ -365,7 +365,9 @@ def var_names(sd: SuccessionDiagram) -> list[str]:
 def vec(space: dict, names: list[str]) -> list[int]:
     extra = set(space) - set(names)
     if extra:
-        raise ValueError(f"space mentions unknown variables {extra}")
+        # a space over names the network does not have cannot be projected: logged as an invalid vector (code 9), which the
+        # PROJ clause of SDTrace.tla rejects - a verdict about the library's data, not a harness failure
+        return [9] * len(names)
     return [int(space[nm]) if nm in space else 2 for nm in names]
 
 
